@@ -5,6 +5,7 @@ import random
 import common as C
 
 PID = "C13"
+DRIVER = [("C13", "TfPwaV.Model.LS", "LS.handle")]
 LEAN_TARGETS = ["TfPwaV.Props.C13"]
 PROP_MODULES = ["TfPwaV.Props.C13"]
 ALL_MODULES = ["TfPwaV.Model.LS", "TfPwaV.Props.C13"]
